@@ -35,7 +35,7 @@ Definition null_value : value := mkV (FFin 0 0) [].
 Inductive mode : Type := MDefault | MCSV | MTSV.
 Definition is_default (m : mode) : bool := match m with MDefault => true | _ => false end.
 
-(* ---- unicode.IsSpace ---------------------------------------------------- *)
+(* ---- unicode.IsSpace (used by encoding/csv for the leading-space rule) ---- *)
 Definition is_space (r : Z) : bool :=
   if r <? 256 then
     ((9 <=? r) && (r <=? 13)) || (r =? 32) || (r =? 133) || (r =? 160)
@@ -43,22 +43,21 @@ Definition is_space (r : Z) : bool :=
     (r =? 5760) || ((8192 <=? r) && (r <=? 8202)) || (r =? 8232) || (r =? 8233)
     || (r =? 8239) || (r =? 8287) || (r =? 12288).
 
-Definition space_chunk (c : bytes) : bool := is_space (rune_of c).
+(* ---- io.go splitBlanks: the default FS ----------------------------------
+   fields = maximal runs of bytes other than space, tab, newline.
+   [cur] = the field being collected, [inf] = inside a field. *)
+Definition is_blank (b : Z) : bool := (b =? 32) || (b =? 9) || (b =? 10).
 
-(* strings.Fields (= strings.FieldsFunc(s, unicode.IsSpace); the ASCII fast
-   path computes the same thing) over the chunks `range s` visits.
-   [cur] = chunks of the field being collected, [inf] = inside a field. *)
-Fixpoint fields_chunks (cs : list bytes) (cur : list bytes) (inf : bool) : list (list bytes) :=
-  match cs with
+Fixpoint fields_bytes (s : bytes) (cur : bytes) (inf : bool) : list bytes :=
+  match s with
   | [] => if inf then [cur] else []
-  | c :: cs' =>
-      if space_chunk c
-      then (if inf then cur :: fields_chunks cs' [] false else fields_chunks cs' [] false)
-      else fields_chunks cs' (cur ++ [c]) true
+  | c :: s' =>
+      if is_blank c
+      then (if inf then cur :: fields_bytes s' [] false else fields_bytes s' [] false)
+      else fields_bytes s' (cur ++ [c]) true
   end.
 
-Definition strings_fields (s : bytes) : list bytes :=
-  map (@concat Z) (fields_chunks (runes s) [] false).
+Definition split_blanks (s : bytes) : list bytes := fields_bytes s [] false.
 
 (* ---- strings.Split ------------------------------------------------------ *)
 Fixpoint is_prefix (t s : bytes) : bool :=
@@ -172,6 +171,8 @@ Record state : Type := mkState {
   fs_re : option rx;       (* p.fieldSepRegex (nil = None) *)
   saved_fs : bytes;        (* p.savedFieldSep *)
   saved_re : option rx;    (* p.savedFieldSepRegex *)
+  saved_rs : bytes;        (* p.savedRecordSep *)
+  saved_inmode : mode;     (* p.savedInputMode (p.savedCSVInputConfig: not modelled, CSV input is Unmod) *)
   ofs : bytes;             (* p.outputFieldSep *)
   rs : bytes;              (* p.recordSep *)
   inmode : mode;           (* p.inputMode *)
@@ -180,7 +181,7 @@ Record state : Type := mkState {
 
 (* newInterp / resetCore *)
 Definition init : state :=
-  mkState [] false [] [] false null_value [32] None [32] None [32] [10] MDefault MDefault.
+  mkState [] false [] [] false null_value [32] None [32] None [10] MDefault [32] [10] MDefault MDefault.
 
 (* io.go splitOnFieldSepRegex: the loop over the match list *)
 Fixpoint split_re_go (ln : bytes) (ms : list (Z * Z)) (prev : Z) : res (list bytes) :=
@@ -198,11 +199,11 @@ Definition split_newlines (fl : list bytes) : list bytes :=
   flat_map (fun f => map trim_cr (split_lit [10] f)) fl.
 
 (* io.go ensureFields, the switch and the RS=="" rule: the field list of
-   record text [ln] for saved separator [sfs]/[sre], current RS and input mode *)
+   record text [ln] for saved separator [sfs]/[sre], saved RS and saved input mode *)
 Definition split_record (sfs : bytes) (sre : option rx) (im : mode) (rsep ln : bytes) : res (list bytes) :=
   do f0 <-
     (if negb (is_default im) then Unmod          (* CSV/TSV re-parse: property C08's model *)
-     else if bytes_eqb sfs [32] then Ok (strings_fields ln)
+     else if bytes_eqb sfs [32] then Ok (split_blanks ln)
      else if is_nil ln then Ok []
      else if rune_count sfs <=? 1 then Ok (strings_split ln sfs)
      else match sre with
@@ -215,14 +216,15 @@ Definition split_record (sfs : bytes) (sre : option rx) (im : mode) (rsep ln : b
 (* io.go ensureFields *)
 Definition ensure_fields (s : state) : res state :=
   if have s then Ok s else
-  do fl <- split_record (saved_fs s) (saved_re s) (inmode s) (rs s) (line s);
+  do fl <- split_record (saved_fs s) (saved_re s) (saved_inmode s) (saved_rs s) (line s);
   Ok (mkState (line s) (line_true s) fl (map (fun _ => false) fl) true (count_value (zlen fl))
-              (fs s) (fs_re s) (saved_fs s) (saved_re s) (ofs s) (rs s) (inmode s) (outmode s)).
+              (fs s) (fs_re s) (saved_fs s) (saved_re s) (saved_rs s) (saved_inmode s)
+              (ofs s) (rs s) (inmode s) (outmode s)).
 
-(* io.go setLine *)
+(* io.go setLine: FS, its regex, RS and the input mode are saved for the lazy split *)
 Definition set_line (s : state) (t : bytes) (is_true : bool) : state :=
   mkState t is_true (fields s) (fields_true s) false (nf s)
-          (fs s) (fs_re s) (fs s) (fs_re s) (ofs s) (rs s) (inmode s) (outmode s).
+          (fs s) (fs_re s) (fs s) (fs_re s) (rs s) (inmode s) (ofs s) (rs s) (inmode s) (outmode s).
 
 (* interp.go joinFields *)
 Definition join_fields (s : state) (fl : list bytes) : bytes :=
@@ -255,7 +257,7 @@ Definition msg_invalid_regex : bytes :=     (* "invalid regex" *)
 
 Definition with_fields (s : state) (fl : list bytes) (tl : list bool) (v : value) : state :=
   mkState (join_fields s fl) true fl tl (have s) v
-          (fs s) (fs_re s) (saved_fs s) (saved_re s) (ofs s) (rs s) (inmode s) (outmode s).
+          (fs s) (fs_re s) (saved_fs s) (saved_re s) (saved_rs s) (saved_inmode s) (ofs s) (rs s) (inmode s) (outmode s).
 
 (* interp.go setField *)
 Definition set_field (s : state) (idx : Z) (t : bytes) : res state :=
@@ -313,6 +315,9 @@ Inductive op : Type :=
 | GetField (i : idx)                           (* $i  (vm.go Field: floatToInt(index.num())) *)
 | SetField (i : idx) (t : bytes)               (* $i = t *)
 | GetlineField (i : idx) (t : bytes)           (* getline $i, the record read being t (vm.go GetlineField) *)
+| GetlineVar (t : bytes)                       (* getline var: the record read, t, goes to a variable;
+                                                  the current record is not touched (io.go getline
+                                                  saves and restores p.fields around the read) *)
 | ModField (i : idx) (f : bytes -> res (option bytes))
       (* read-modify-write of one field with the index converted once:
          sub/gsub on $i (Ok None = no substitution made: AssignFieldSub skips the store),
@@ -338,7 +343,7 @@ Inductive out : Type :=
 Definition set_fs (s : state) (f : bytes) (r : option rx) : res state :=
   let upd (re : option rx) :=
     mkState (line s) (line_true s) (fields s) (fields_true s) (have s) (nf s)
-            f re (saved_fs s) (saved_re s) (ofs s) (rs s) (inmode s) (outmode s) in
+            f re (saved_fs s) (saved_re s) (saved_rs s) (saved_inmode s) (ofs s) (rs s) (inmode s) (outmode s) in
   if rune_count f >? 1 then
     match r with
     | None => Err msg_invalid_regex
@@ -348,16 +353,16 @@ Definition set_fs (s : state) (f : bytes) (r : option rx) : res state :=
 
 Definition set_ofs (s : state) (o : bytes) : state :=
   mkState (line s) (line_true s) (fields s) (fields_true s) (have s) (nf s)
-          (fs s) (fs_re s) (saved_fs s) (saved_re s) o (rs s) (inmode s) (outmode s).
+          (fs s) (fs_re s) (saved_fs s) (saved_re s) (saved_rs s) (saved_inmode s) o (rs s) (inmode s) (outmode s).
 Definition set_rs (s : state) (r : bytes) : state :=
   mkState (line s) (line_true s) (fields s) (fields_true s) (have s) (nf s)
-          (fs s) (fs_re s) (saved_fs s) (saved_re s) (ofs s) r (inmode s) (outmode s).
+          (fs s) (fs_re s) (saved_fs s) (saved_re s) (saved_rs s) (saved_inmode s) (ofs s) r (inmode s) (outmode s).
 Definition set_inmode (s : state) (m : mode) : state :=
   mkState (line s) (line_true s) (fields s) (fields_true s) (have s) (nf s)
-          (fs s) (fs_re s) (saved_fs s) (saved_re s) (ofs s) (rs s) m (outmode s).
+          (fs s) (fs_re s) (saved_fs s) (saved_re s) (saved_rs s) (saved_inmode s) (ofs s) (rs s) m (outmode s).
 Definition set_outmode (s : state) (m : mode) : state :=
   mkState (line s) (line_true s) (fields s) (fields_true s) (have s) (nf s)
-          (fs s) (fs_re s) (saved_fs s) (saved_re s) (ofs s) (rs s) (inmode s) m.
+          (fs s) (fs_re s) (saved_fs s) (saved_re s) (saved_rs s) (saved_inmode s) (ofs s) (rs s) (inmode s) m.
 
 (* the index expression evaluated to a Go int.  NF-relative: Special NF is
    pushed first (getSpecial: ensureFields), then the float arithmetic, then
@@ -390,6 +395,7 @@ Definition exec_op (s : state) (o : op) : res (state * out) :=
       (* compiler: c.expr(target.Index); GetlineField pops the index and calls setField(index, line) *)
       do (s0, k) <- eval_idx s i;
       do s1 <- set_field s0 k t; Ok (s1, ONone)
+  | GetlineVar _ => Ok (s, ONone)
   | ModField i f =>
       do (s0, k) <- eval_idx s i;
       do (s1, old, _) <- get_field s0 k;
